@@ -241,6 +241,9 @@ func runC03(w *World, r *Report) {
 		r.Extra["functions_reachable_from_truncate"] = len(reach)
 	}
 
+	// 3d. a vertex is never both live and checkpointed: only the truncation walk writes vertices to storage
+	storageWriters(w, r, "storage-only-what-is-pruned")
+
 	// 4. under the ledger lock
 	r.rule("reserve-under-lock", "the reservation in addLeafMemorized and CreateLeaf runs with AccountingBook.mux held exclusively (check-then-insert is atomic w.r.t. other admissions)", 2)
 	for _, spec := range []string{"addLeafMemorized", "CreateLeaf"} {
@@ -334,4 +337,30 @@ func isParamOf(fn *ssa.Function, v ssa.Value) bool {
 		}
 	}
 	return false
+}
+
+// storageWriters: saveVertexToStorage is called only from the callback of truncate's save walk, i.e. only
+// for vertices that the same truncation removes from the live DAG (the walk never yields its start vertex,
+// which stays live). Any other caller would leave a vertex in both the live DAG and checkpoint storage.
+func storageWriters(w *World, r *Report, rule string) {
+	r.rule(rule, "saveVertexToStorage is called only from the callback of truncate's funds/save walk (so exactly the vertices the deletion walk removes are checkpointed: none is both live and stored)", 1)
+	tr := w.Func("accountant", "AccountingBook", "truncate")
+	var walkCb *ssa.Function
+	if tr != nil {
+		walks := callsTo(tr, cn("accountant", "*AccountingBook", "performOnAncestorWalker"))
+		if len(walks) == 3 {
+			_, a := callArgs(walks[1])
+			walkCb = closureOf(a[2])
+		}
+	}
+	n := 0
+	for _, fn := range w.RepoFuncs("accountant") {
+		for _, c := range callsTo(fn, cn("accountant", "*AccountingBook", "saveVertexToStorage")) {
+			n++
+			r.check(walkCb != nil && fn == walkCb, rule, shortFn(fn)+"/saveVertexToStorage", lineOf(w, c), "vertices are written to checkpoint storage only by the truncation walk callback", "called from "+shortFn(fn))
+		}
+	}
+	if n == 0 {
+		r.bad(rule, "saveVertexToStorage/callers", "-", "the truncation walk saves vertices", "no caller found")
+	}
 }
